@@ -64,6 +64,12 @@ pub fn gen(rng: &mut Rng, size: usize) -> Value {
         // a generated file
         let n = 1 + rng.below(8);
         let mut f = String::new();
+        if rng.chance(1, 8) {
+            // the reference lies beyond the first 8 KiB / behind a very long line
+            let filler = if rng.chance(1, 2) { "x".repeat(8100 + rng.below(200) as usize) } else { "var a = 1; // filler\n".repeat(400 + rng.below(50) as usize) };
+            f.push_str(&filler);
+            f.push_str(*rng.pick(&["\n", "\r\n", ""]));
+        }
         for k in 0..n {
             f.push_str(match rng.below(9) {
                 0 => "//# sourceMappingURL=",
